@@ -634,14 +634,14 @@ where
             &mut None,
             &rpr_seqs[0],
         );
-        laidx = parser.lr_upto(
-            None,
-            laidx,
-            in_laidx + TRY_PARSE_AT_MOST,
-            &mut pstack,
-            &mut None,
-            &mut None,
-        );
+        // `lr_upto` only stops at its limit if it starts before it. A candidate whose own repairs
+        // already reach beyond the limit must not be parsed on without any limit, nor count as
+        // having got further than the candidates which were stopped at the limit.
+        let limit = in_laidx + TRY_PARSE_AT_MOST;
+        if laidx < limit {
+            laidx = parser.lr_upto(None, laidx, limit, &mut pstack, &mut None, &mut None);
+        }
+        let laidx = laidx.min(limit);
         if laidx >= furthest {
             furthest = laidx;
         }
